@@ -7,11 +7,12 @@ MCNodes == {"n1", "n2", "n3"}
 MCCap == [n \in MCNodes |-> CASE n = "n1" -> [vcore |-> 4, memory |-> 4]
                               [] n = "n2" -> [vcore |-> 8, memory |-> 4]
                               [] OTHER    -> [vcore |-> 4, memory |-> 8, pods |-> 10]]
-MCAllocIds == {"a1", "a2"}
+MCAllocIds == {"a1", "a2", "a3"}
 MCForeignIds == {"f1"}
 MCSize == [a \in MCAllocIds \cup MCForeignIds |->
               CASE a = "a1" -> [vcore |-> 1, memory |-> 1, pods |-> 1]
                 [] a = "a2" -> [vcore |-> 2, memory |-> 1]
+                [] a = "a3" -> [vcore |-> 1, memory |-> 1]         \* (no larger than a1 and a2: can replace them)
                 [] OTHER    -> [vcore |-> 1, memory |-> 2]]
 MCWDefault == [vcore |-> 1, memory |-> 1]
 MCWSkewed == [vcore |-> 2, memory |-> 1]
